@@ -133,7 +133,7 @@ class FillFunc:
 
 
 def h_create(n: int, probe: int, c=2, numtype='float64', atom=(), usefunc=False, usechunklen=True,
-             F=3, _gate=None, _small=False):
+             F=3, fillv=7, _gate=None, _small=False):
     """create_array(shape=(n,)+atom, dtype, fill | fillfunc, chunklen c)"""
     assume(0 <= n <= BIG)
     if usechunklen:
@@ -148,14 +148,14 @@ def h_create(n: int, probe: int, c=2, numtype='float64', atom=(), usefunc=False,
             a = D.array.create_array('/w/a', shape=(n,) + atom, dtype=numtype, fillfunc=FillFunc(),
                                      chunklen=c if usechunklen else None)
         else:
-            a = D.array.create_array('/w/a', shape=(n,) + atom if atom else n, dtype=numtype, fill=7,
+            a = D.array.create_array('/w/a', shape=(n,) + atom if atom else n, dtype=numtype, fill=fillv,
                                      chunklen=c if usechunklen else None)
     except Exception as e:
         raise Violation(f'create_array raised {type(e).__name__}', msg=holes.symstr(e))
     if usefunc:
         ref = Seq.of(('ff',) if numtype == 'int64' else ('cast', numtype, ('ff',)), n)
     else:
-        ref = Seq.of(('fill', 7, numtype), n)
+        ref = Seq.of(symnp.fill_src(0 if fillv is None else fillv, numtype), n)
     lab = label(gt_of(numtype, 'little' if symnp.NATIVE == '<' else 'big'))
     check_all(w, a, numtype, lab, (n,) + atom, ref, probe, 'after create_array')
     reach('end')
@@ -271,8 +271,9 @@ def replay_create(cex, d):
                     grid = np_.arange(n).reshape((n,) + (1,) * len(atom)) * np_.ones((1,) + atom, dtype='int64')
                     ref = (grid * 2).astype(nt)
                 else:
-                    a = darr.create_array(p, shape=(n,) + atom if atom else n, dtype=nt, fill=7, chunklen=c)
-                    ref = np_.full((n,) + atom, 7, dtype=nt)
+                    fv = fx.get('fillv', 7)
+                    a = darr.create_array(p, shape=(n,) + atom if atom else n, dtype=nt, fill=fv, chunklen=c)
+                    ref = np_.full((n,) + atom, 0 if fv is None else fv, dtype=nt)
                 _cmp(darr, np_, p, a, ref, probs)
             else:
                 form = fx['form']
@@ -390,9 +391,14 @@ def obligations(tier):
     obs.append(Ob('O6-fill', 'h_create',
                   splits=[dict(c=c, numtype=nt, atom=at, usefunc=False, usechunklen=ucl, F=3)
                           for (nt, at) in [('float64', ()), ('int16', (2,)), ('complex128', (2, 3))]
-                          for (c, ucl) in [(1, True), (2, True), (3, True), (5, False)]],
+                          for (c, ucl) in [(1, True), (2, True), (3, True), (5, False)]] +
+                         [dict(c=2, numtype=nt, atom=at, usefunc=False, usechunklen=True, F=3, fillv=fv)
+                          for (nt, at, fv) in [('float64', (), -0.0), ('float32', (2,), 0.0), ('int16', (), 0), ('int8', (), None),
+                                               ('float16', (), False), ('uint8', (2,), True), ('complex64', (), -0.0),
+                                               ('float64', (), 0.5), ('int32', (), -1)]],
                   timeout=T, replay='replay_create', sym='n, probe',
-                  bounds='n >= 0 with n <= 3*chunklen, chunklen in {1,2,3,None}'))
+                  bounds='n >= 0 with n <= 3*chunklen, chunklen in {1,2,3,None}; fill values 7, -0.0, 0.0, 0, None (default), '
+                         'False, True, 0.5, -1 compared by the bytes they cast to'))
     obs.append(Ob('O7-fillfunc', 'h_create',
                   splits=[dict(c=c, numtype=nt, atom=at, usefunc=True, usechunklen=ucl, F=3)
                           for (nt, at) in [('float64', ()), ('int64', (2,)), ('float32', (2, 3))]
